@@ -55,13 +55,21 @@ def lru_sweep(run, model, L):
 
 
 POOL = ["set_index-a", "sort-a", "sort-b", "filter", "sum", "groupby-sum", "merge-inner", "shuffle-tasks", "repartition-2", "head3", "cumsum", "assign",
-        "drop_duplicates", "value_counts", "partitions-1", "mean", "len", "concat", "two-shifts", "add1", "fillna0", "groupby-agg", "nlargest", "loc", "bcast-scalar", "unique"]
+        "drop_duplicates", "value_counts", "partitions-1", "mean", "len", "concat", "two-shifts", "add1", "fillna0", "groupby-agg", "nlargest", "loc", "bcast-scalar", "unique",
+        "presorted-sort-asc", "presorted-sort-desc", "presorted-set_index", "presorted-sort-desc-by-other", "presorted-sort-asc-by-other", "unsorted-source", "from_array"]
+
+
+# row order inside the partitions is not defined for these (hash shuffles, disk shuffle ties, groupby output)
+UNORDERED_PARTS = {"merge-inner", "shuffle-tasks", "drop_duplicates", "value_counts", "unique", "groupby-sum", "groupby-agg", "set_index-a", "sort-a", "sort-b", "concat", "nlargest"}
 
 
 def observe(c):
     o = c.optimize()
     res = c.compute()
-    return {"opt_name": o.expr._name, "divisions": repr(tuple(o.divisions)), "npartitions": o.npartitions, "result": repr(canon(res, False))}
+    import dask
+    parts = dask.get(o.__dask_graph__(), o.__dask_keys__())
+    return {"opt_name": o.expr._name, "divisions": repr(tuple(o.divisions)), "npartitions": o.npartitions, "result": repr(canon(res, False)),
+            "partitions": repr([canon(p, True) for p in parts])}
 
 
 def _alone(args):
@@ -143,7 +151,7 @@ def run(run):
             if ob[0] == "raise":
                 run.violation("after %d history steps query %s fails (%s) although it computes alone in a fresh process" % (step, nm, ob[1]), {"kind": "history", "query": nm, "step": step, "seed": run.seed})
                 continue
-            for what in ("opt_name", "divisions", "npartitions", "result"):
+            for what in ("opt_name", "divisions", "npartitions", "result") + (() if nm in UNORDERED_PARTS else ("partitions",)):
                 if ob[1][what] != b[what]:
                     run.violation("after %d history steps %s of query %s differs from the fresh-process observation: %s vs %s" % (step, what, nm, _short(ob[1][what]), _short(b[what])),
                                   {"kind": "history", "query": nm, "step": step, "what": what, "seed": run.seed})
